@@ -42,8 +42,6 @@ void PartitionInfo::addClausePartition(CRef c, ipartitions_t const & p) {
 }
 
 void PartitionInfo::invalidatePartitions(ipartitions_t const & toinvalidate) {
-    // A popped formula must not keep its index: a later assertion with the same internal form would be filed under it
-    flaPartitionMap.removePartitions([&](unsigned int index) { return tstbit(toinvalidate, index) != 0; });
     auto negated = ~toinvalidate;
     for (auto it = term_partitions.begin(); it != term_partitions.end(); /* deliberately empty */) {
         auto & current_info = it->second;
